@@ -75,6 +75,19 @@ func C17(c *core.Ctx) {
 			})
 		}
 	}
+	// a tag list WITHOUT yaml (with --extra-imports): the YAML methods are emitted all the same (yaml.v3 binds untagged fields by their
+	// lower-cased name) and equal their JSON siblings — the set of emitted decoders follows --extra-imports, not the tag list
+	{
+		jm := gen.DefaultConfig()
+		jm.Tags = []string{"json", "mapstructure"}
+		ms := append(requiredMembers(c.Tier, jm), defaultMembers(c.Tier, jm)...)
+		for i, mb := range ms {
+			if c.Tier != "thorough" && i%3 != 0 {
+				continue
+			}
+			runMember(c, mb, ruleSet("A-SIB"), 256, func(w *fam.World, fm *fam.FileModel) []fam.Issue { return fam.SibIssues(fm) })
+		}
+	}
 	// a tag list without json: the additional-properties block of BOTH methods enumerates the declared keys the same way
 	{
 		y := gen.DefaultConfig()
